@@ -155,6 +155,20 @@ Definition window_ok (dur maxdur now : N) (past : list (N * Fl)) (scount : N) (m
       then forallb (fun q => fsame O q (fzero O)) qs
       else forallb (fun q => fwithin O q (smin may) (smax may)) qs).
 
+(* the rendered quantiles alone (the snapshot's own count is not visible through the exporter): all 0 when
+   nothing may be held; within the window's [min, max] when something must be held; either when the snapshot may
+   or may not be empty *)
+Definition window_q_ok (dur maxdur now : N) (past : list (N * Fl)) (qs : list Fl) : bool :=
+  let may := may_hold maxdur now past in
+  let must := must_hold dur maxdur now past in
+  let zero := forallb (fun q => fsame O q (fzero O)) qs in
+  let within := forallb (fun q => fwithin O q (smin may) (smax may)) qs in
+  match may, must with
+  | [], _ => zero
+  | _ :: _, [] => zero || within
+  | _ :: _, _ :: _ => within
+  end.
+
 Definition rspec_step (n dur : N) (s : rspec) (o : rop O) (x : rout O) : option rspec :=
   match o, x with
   | RAdd _ t v, OAdd _ c =>
@@ -166,6 +180,17 @@ Definition rspec_step (n dur : N) (s : rspec) (o : rop O) (x : rout O) : option 
       let mono := sp_mono s && (sp_last s <=? t) in
       if (c =? sp_count s) && fsame O sm (sp_sum s)
          && (if mono then window_ok dur (dur * n) t (sp_past s) sc mn mx qs else true)
+      then Some {| sp_past := sp_past s; sp_last := t; sp_mono := mono; sp_count := sp_count s; sp_sum := sp_sum s |}
+      else None
+  (* through the exporter: _count = number of samples ever recorded and _sum = their sum, regardless of the
+     window; the quantiles come from the window only *)
+  | RAdd _ t v, OAck _ =>
+      Some {| sp_past := sp_past s ++ [(t, v)]; sp_last := t; sp_mono := sp_mono s && (sp_last s <=? t);
+              sp_count := sp_count s + 1; sp_sum := fadd O (sp_sum s) v |}
+  | RSnap _ t, ORen _ c sm qs =>
+      let mono := sp_mono s && (sp_last s <=? t) in
+      if (c =? sp_count s) && fsame O sm (sp_sum s)
+         && (if mono then window_q_ok dur (dur * n) t (sp_past s) qs else true)
       then Some {| sp_past := sp_past s; sp_last := t; sp_mono := mono; sp_count := sp_count s; sp_sum := sp_sum s |}
       else None
   | _, _ => None
